@@ -943,6 +943,8 @@ def _size_is_static(env):
 
 
 def representable(t, v, module):
+    if t.kind == "Float":
+        return True  # every value of the C++ floating-point type of the same width is stored bit for bit
     if t.kind == "Flag":
         return v in (0, 1, True, False)
     lo, hi = scalar_range(t, module)
